@@ -52,6 +52,7 @@ RegApp == IF Apps = {} THEN 4 ELSE AppCfg[AppOrder[1]].id
 \* the identity a connection speaks as: its peer if it has one, any host otherwise
 Speakers(c) == LET p == PeerOf(S, c) IN IF p # "" THEN {p} ELSE Hosts
 OutstandingCer(c) == S.conn[c].dir = "out"
+InFlight(c, hbh, e2e) == \E j \in 1..Len(S.held) : S.held[j].c = c /\ ~S.held[j].answered /\ S.held[j].m.hbh = hbh /\ S.held[j].m.e2e = e2e
 Msgs(c) ==
   LET sp == Speakers(c) IN
   (IF "cer" \in Alpha /\ S.conn[c].dir = "in" /\ S.conn[c].st = "CONNECTED" /\ S.conn[c].nodeName = ""   \* at most one CER per connection
@@ -70,8 +71,10 @@ Msgs(c) ==
   (IF "req" \in Alpha
      THEN {Mk("APP", 272, TRUE, id[1], id[2], ap, h, rl, 0, t, TRUE, FALSE, <<>>, <<>>, FALSE)
              : id \in Ids, ap \in {RegApp, 9}, h \in sp, rl \in {NodeCfg.realm, "r9"}, t \in {FALSE, TRUE}} ELSE {}) \cup
-  (IF "req1" \in Alpha
+  (IF "req1" \in Alpha /\ ~InFlight(c, 1, 1)      \* identifiers of in-flight requests are unique per connection
      THEN {Mk("APP", 272, TRUE, 1, 1, RegApp, h, NodeCfg.realm, 0, FALSE, TRUE, FALSE, <<>>, <<>>, FALSE) : h \in sp} ELSE {}) \cup
+  (IF "req2" \in Alpha /\ ~InFlight(c, 1, 2)   \* the same hop-by-hop identifier as req1 with another end-to-end identifier
+     THEN {Mk("APP", 272, TRUE, 1, 2, RegApp, h, NodeCfg.realm, 0, FALSE, TRUE, FALSE, <<>>, <<>>, FALSE) : h \in sp} ELSE {}) \cup
   (IF "ans" \in Alpha THEN {Mk("APP", 272, FALSE, 1, 1, RegApp, h, "", 2001, FALSE, TRUE, FALSE, <<>>, <<>>, FALSE) : h \in sp \cup {""}} ELSE {}) \cup
   (IF "sans" \in Alpha     \* answers (also late and repeated ones) to the requests the node sent on this connection
      THEN {Mk("APP", 272, FALSE, S.snd[j].hbh, S.snd[j].e2e, AppCfg[S.snd[j].a].id, h, "", 2001, FALSE, TRUE, FALSE, <<>>, <<>>, FALSE)
@@ -106,9 +109,15 @@ Acts ==
          : c \in {x \in ConnIds : S.conn[x].used /\ S.conn[x].connecting /\ S.conn[x].sock = "open"}}
 
 StartAct == [a |-> "start"]
-Init == LET S1 == StepOf(InitState, StartAct) IN
-        /\ S = S1 /\ n = 0 /\ lastAct = StartAct /\ hist = <<StartAct>>
-        /\ M = MonStep(MonInit, TraceStep(S1, StartAct))
+\* optional fixed prefix of actions (from the instance parameters) applied before exploration starts
+PrefixActs == IF "prefix" \in DOMAIN P THEN P.prefix ELSE <<>>
+RECURSIVE RunPrefix(_, _, _)
+RunPrefix(St, Mo, acts) == IF acts = <<>> THEN [S |-> St, M |-> Mo]
+                           ELSE LET S1 == StepOf(St, Head(acts)) IN RunPrefix(S1, MonStep(Mo, TraceStep(S1, Head(acts))), Tail(acts))
+Init == LET S1 == StepOf(InitState, StartAct)
+            R  == RunPrefix(S1, MonStep(MonInit, TraceStep(S1, StartAct)), PrefixActs)
+        IN /\ S = R.S /\ n = 0 /\ lastAct = StartAct /\ hist = <<StartAct>> \o PrefixActs
+           /\ M = R.M
 Next == /\ n < Depth
         /\ \E act \in Acts :
              LET S1 == StepOf(S, act) IN
